@@ -1,8 +1,71 @@
-(* C08: resume loses nothing, repeats only the tied group. *)
+(* C08 - resuming a saved session loses nothing and repeats at most the tied
+   group.  Property theorems only. *)
+From Coq Require Import List Bool Sorting.Permutation Floats.
+From Pcfg Require Import ProbAlg F64 Next NextSpec NextProofs NextFacts RestoreProofs RestoreFacts RestoreRefuted.
 From PcfgGen Require Import Consts_gen.
 
-(* Side condition on the regenerated constants: the theorems about the
-   restored frontier are proved for the non-strict comparison in
-   is_parent_around; the source must use it. *)
+(* Side condition on the constant regenerated from the source on every run:
+   the theorems below are about the non-strict comparison in is_parent_around;
+   the source must use it (it used `<` before the fix, see C08_refuted_lt). *)
 Theorem C08_source_parent_test_is_le : parent_around_strict = false.
 Proof. reflexivity. Qed.
+
+(* the restore walk rebuilds exactly the frontier of the saved probability *)
+Theorem C08_restore_frontier :
+  forall (A : palg) (rs : ruleset A), wf rs -> forall m, okb m = true ->
+  Permutation (restored_gen false rs m) (filter (frontierb rs m) (all_preterminals rs)).
+Proof. exact (fun A rs H m => restore_frontier rs H m). Qed.
+
+(* fuel of the model's walk is never exhausted on a well-formed ruleset *)
+Theorem C08_walk_fuel_enough :
+  forall (A : palg) (rs : ruleset A) strict m fuel, wf rs ->
+  (forall it, restore_fuel rs it <= fuel it) ->
+  flat_map (fun it => restore_gen strict (fuel it) rs it m 0) (init_items rs) = restored_gen strict rs m.
+Proof. exact (fun A rs strict m fuel H => restore_fuel_enough rs H m strict fuel). Qed.
+
+(* the resumed run = exactly the pre-terminals at or below the saved
+   probability, each once, in non-increasing order *)
+Theorem C08_resume_exact :
+  forall (A : palg) (rs : ruleset A), wf rs -> forall pop m, pop_ok_okb pop -> okb m = true ->
+  let SS := filter (below m) (all_preterminals rs) in
+  (forall n, nonincreasing (rev (emitted (resumed rs pop m n)))) /\
+  (forall n, NoDup (emitted (resumed rs pop m n) ++ pending (resumed rs pop m n))) /\
+  (forall n x, In x (emitted (resumed rs pop m n) ++ pending (resumed rs pop m n)) -> In x SS) /\
+  (forall n, n <= length SS -> length (emitted (resumed rs pop m n)) = n) /\
+  Permutation (emitted (resumed rs pop m (length SS))) SS /\
+  pending (resumed rs pop m (length SS)) = nil.
+Proof. exact (fun A rs H pop m => resume_exact rs H pop m). Qed.
+
+(* relative to the uninterrupted run U = U1 ++ x :: U2 cut before x *)
+Theorem C08_suffix_and_repeats :
+  forall (A : palg) (rs : ruleset A), wf rs -> forall pop pop' U1 x U2,
+  pop_ok_okb pop -> pop_ok_okb pop' ->
+  rev (emitted (run pop rs (total rs) (start rs))) = U1 ++ x :: U2 ->
+  let m := iprob x in
+  let B := emitted (resumed rs pop' m (length (filter (below m) (all_preterminals rs)))) in
+  (forall y, In y (x :: U2) -> In y B) /\
+  (forall y, In y B -> ple (iprob y) m = true) /\
+  NoDup B /\
+  (forall y, In y B -> In y U1 -> peq (iprob y) m = true) /\
+  nonincreasing (rev B).
+Proof. exact (fun A rs H pop pop' U1 x U2 => resume_suffix_and_repeats rs H pop pop' U1 x U2). Qed.
+
+(* every later quit/resume cycle: the restored state is a function of the
+   ruleset and the saved probability only *)
+Theorem C08_any_history :
+  forall (A : palg) (rs : ruleset A) pop m n,
+  resumed rs pop m n = run pop rs n {| emitted := nil; pending := restored_gen false rs m |}.
+Proof. exact (fun A rs pop m n => resume_depends_only_on_saved rs pop m n). Qed.
+
+(* the comparison the code used before the fix duplicates a sub-tree *)
+Theorem C08_refuted_lt :
+  length (restored_gen true rs1 m1) = 2 /\ length (filter (frontierb rs1 m1) (all_preterminals rs1)) = 1.
+Proof. exact restore_strict_refuted. Qed.
+
+Theorem C08_hypotheses_satisfiable : wf demo_rs.
+Proof. exact demo_wf. Qed.
+
+Print Assumptions C08_restore_frontier.
+Print Assumptions C08_resume_exact.
+Print Assumptions C08_suffix_and_repeats.
+Print Assumptions C08_refuted_lt.
